@@ -248,7 +248,7 @@ class C19:
     level = "exploration"
     design_ref = "DESIGN.md 3.9"
     tiers = {"quick": {"runs": 16000, "budget_s": 80, "chunk": 80, "twice_every": 20, "shrink_s": 40},
-             "thorough": {"runs": 400000, "budget_s": 840, "chunk": 80, "twice_every": 40, "shrink_s": 120}}
+             "thorough": {"runs": 600000, "budget_s": 840, "chunk": 80, "twice_every": 40, "shrink_s": 120}}
     rule = ("one run = 2-5 callers (threads sharing one ConcurrentCacher, or processes with one each) x 1-6 operations "
             "(get_set with list/iterator/generator/value getters, nested same-key or higher-ranked-key get_set, rmv) on "
             "2-4 keys incl. hash-colliding pairs, over MemoryCacher or DiskCacher, with a fault plan (getter raises before / "
